@@ -52,7 +52,9 @@ pub struct Plan {
     /// payout mode: before the honest block of step `.0` a rival block on the same parent is offered whose
     /// golden ticket does not solve the parent's lottery: kind `.1` 0 = solved (at the parent's difficulty) against
     /// the grandparent's hash, 1 = against the genesis block's hash, 2 = against a made-up hash, 3 = aimed at the
-    /// parent but not meeting its difficulty. Only where the parent's difficulty is > 0.
+    /// parent but not meeting its difficulty. Only where the parent's difficulty is > 0. Kind 4 is not a rival:
+    /// the honest block of that step carries a ticket solved by user 2 inside a golden-ticket transaction built
+    /// and signed by another key (a relayed solution); the payout oracle then runs on it as on any block.
     #[serde(default)]
     pub bad_ticket: Option<(usize, u8)>,
 }
@@ -92,7 +94,7 @@ fn gen(seed: u64, tier: Tier) -> Plan {
                 (rng.range(1, 4) as usize, rng.below(80_000), rng.below(4) as usize, gt)
             })
             .collect();
-        let bad_ticket = if rng.chance(1, 2) { Some((rng.range(2, n as u64) as usize, rng.below(4) as u8)) } else { None };
+        let bad_ticket = if rng.chance(1, 2) { Some((rng.range(2, n as u64) as usize, rng.below(5) as u8)) } else { None };
         Plan { seed, mode: "payout".into(), prefix: 0, txs: vec![], dts: vec![], blocks, mid_chain: false, boundary: false, bad_ticket }
     }
 }
@@ -185,7 +187,7 @@ impl Scenario for C08 {
     fn meta(&self) -> Meta {
         Meta {
             level: "exploration",
-            rule: "two families. work (a fifth of its runs: one routed transaction whose fee is exactly the integer part of parent burn fee / elapsed at an offset where the fraction is 0.6..0.95, i.e. one nolan below the rounded requirement - must be refused): parent chain of 1-3 blocks, then the same transaction set (1-6/8 payments, fee classes 0..150k nolan, path shapes valid-1/2/3 hops, none, not ending at the creator, passing through the creator but ending elsewhere, forged hop signature, non-contiguous, self-hop) bundled at two timestamp offsets drawn from {0.001, 0.05, 0.2, 0.5, 0.9, 1.5, 1.999, 2.0, 2.5} heartbeats (+jitter), each offered to a fresh replica. Oracle: accepted => every path cryptographically valid, contiguous, no self-hop; and for offset < 2 heartbeats independently computed work (u128, halving per hop after the first, only paths ending at the creator) >= parent_burnfee/offset - 1; acceptance at the smaller offset implies acceptance at the larger; offset >= 2 heartbeats needs no work. payout: histories of 4-10/20 blocks with routed fee-paying transactions and four ticket patterns (every 2nd, every 3rd, every block, random); for every accepted block with a Fee transaction: each output goes to the ticket's key, to a hop recipient of a transaction in the blocks being paid (previous; and the one before when the previous had no ticket), or to the sender of a path-less transaction there; sum of outputs <= fees collected by those blocks (u128). In half of the payout runs one step first offers a rival block on the same parent whose golden ticket does not solve the parent's lottery (solved at the parent's difficulty against the grandparent's / the genesis block's / a made-up hash, or aimed at the parent but below its difficulty; only where the parent's difficulty is > 0, reached through the ticket-in-every-block pattern): it must not be accepted. distinct_nontrivial = distinct (offset bucket, path-shape multiset, margin sign) resp. (payout history digest).",
+            rule: "two families. work (a fifth of its runs: one routed transaction whose fee is exactly the integer part of parent burn fee / elapsed at an offset where the fraction is 0.6..0.95, i.e. one nolan below the rounded requirement - must be refused): parent chain of 1-3 blocks, then the same transaction set (1-6/8 payments, fee classes 0..150k nolan, path shapes valid-1/2/3 hops, none, not ending at the creator, passing through the creator but ending elsewhere, forged hop signature, non-contiguous, self-hop) bundled at two timestamp offsets drawn from {0.001, 0.05, 0.2, 0.5, 0.9, 1.5, 1.999, 2.0, 2.5} heartbeats (+jitter), each offered to a fresh replica. Oracle: accepted => every path cryptographically valid, contiguous, no self-hop; and for offset < 2 heartbeats independently computed work (u128, halving per hop after the first, only paths ending at the creator) >= parent_burnfee/offset - 1; acceptance at the smaller offset implies acceptance at the larger; offset >= 2 heartbeats needs no work. payout: histories of 4-10/20 blocks with routed fee-paying transactions and four ticket patterns (every 2nd, every 3rd, every block, random); for every accepted block with a Fee transaction: each output goes to the ticket's key, to a hop recipient of a transaction in the blocks being paid (previous; and the one before when the previous had no ticket), or to the sender of a path-less transaction there; sum of outputs <= fees collected by those blocks (u128). In half of the payout runs one step first offers a rival block on the same parent whose golden ticket does not solve the parent's lottery (solved at the parent's difficulty against the grandparent's / the genesis block's / a made-up hash, or aimed at the parent but below its difficulty; only where the parent's difficulty is > 0, reached through the ticket-in-every-block pattern): it must not be accepted; a fifth kind lets the honest block carry a ticket solved by one key inside a golden-ticket transaction signed by another (the miner payout belongs to the solver). distinct_nontrivial = distinct (offset bucket, path-shape multiset, margin sign) resp. (payout history digest).",
             real: &["BurnFee", "Transaction::generate_total_work/validate_routing_path/get_winning_routing_node", "Block::validate (work check, golden ticket, fee transaction)", "Block::find_winning_router", "Hop"],
             stubs: &["SimIo", "SimConfig", "vendored ahash"],
             assumptions: &["secp256k1/blake3 wrappers (verify) are trusted primitives of the oracle", "genesis period >> depth"],
@@ -420,7 +422,7 @@ impl Scenario for C08 {
                 // a rival block whose ticket does not solve the parent's lottery
                 if let Some((at, kind)) = plan.bad_ticket {
                     let parent: Block = w.block(cur);
-                    if at == step && parent.difficulty > 0 && parent.difficulty <= 18 {
+                    if at == step && kind < 4 && parent.difficulty > 0 && parent.difficulty <= 18 {
                         let thief = w.params.n_users + 1;
                         let aim: [u8; 32] = match kind {
                             0 => parent.previous_block_hash,
@@ -482,7 +484,21 @@ impl Scenario for C08 {
                     }
                 }
                 let spec = BlockSpec { parent: prec.hash, ts, txs, gt: *gt || need_gt, creator: 0 };
-                let b = match crate::util::guarded(|| build_block(&w.builder, &w.keys, spec)) {
+                // kind 4: the honest block's ticket was solved by user 2 and is carried by a golden-ticket
+                // transaction that another key built and signed: the payout is the solver's
+                let relayed = match plan.bad_ticket {
+                    Some((at, 4)) if at == step && spec.gt => {
+                        let parent: Block = w.block(cur);
+                        if parent.difficulty <= 18 {
+                            r.fault("golden_ticket_wrapped_by_another_key", 1);
+                            Some((mine_gt(parent.hash, parent.difficulty, &w.keys[2], 0x4400 + step as u64), w.params.n_users + 1))
+                        } else {
+                            None
+                        }
+                    }
+                    _ => None,
+                };
+                let b = match crate::util::guarded(|| build_block_with_ticket(&w.builder, &w.keys, spec, relayed)) {
                     Ok(Ok(b)) => b,
                     _ => break,
                 };
